@@ -444,12 +444,19 @@ def units(tier, seed):
         if key not in seen:
             seen.add(key)
             us.append({'harness': 'client-extracts', 'kind': k, 'L': L, 'T': T, 'K': K, 'variant': x, 'mode': 'pad'})
+    # 'the bounds are the ones the simulator enforces when reading that parameter': the class-level readers (which may touch the declared
+    # bounds before reading) against the declared - and hence published - bounds (units shared with C07)
+    mods = [(m_, c_) for m_, c_ in gx.SOURCE_CLASSES if tier == 'thorough' or c_ in ('AGSWellBores', 'WellBores', 'Reservoir', 'SurfacePlant', 'SBTWellbores')]
+    for m_, c_ in mods:
+        us.append({'harness': 'class-reader', 'layer': 'module', 'module': m_, 'cls': c_, 'backgrounds': ['only-this-key'], 'slice': None})
     return us
 
 
 def run_unit(unit):
     if unit['harness'] == 'names':
         yield from run_names(unit)
+    elif unit['harness'] == 'class-reader':
+        yield from c07.run_unit({k: v for k, v in unit.items() if k != 'harness'})
     elif unit['harness'] == 'client-extracts':
         from . import c10
         u = {k: v for k, v in unit.items() if k != 'harness'}
